@@ -29,13 +29,18 @@ func NewNumericRangeSearcher(ctx context.Context, indexReader index.IndexReader,
 	min *float64, max *float64, inclusiveMin, inclusiveMax *bool, field string,
 	boost float64, options search.SearcherOptions) (search.Searcher, error) {
 	// account for unbounded edges
+	// an unbounded edge excludes nothing, not even the infinity standing in
+	// for it, whatever the inclusive flag of that edge says
+	unbounded := true
 	if min == nil {
 		negInf := math.Inf(-1)
 		min = &negInf
+		inclusiveMin = &unbounded
 	}
 	if max == nil {
 		Inf := math.Inf(1)
 		max = &Inf
+		inclusiveMax = &unbounded
 	}
 	if inclusiveMin == nil {
 		defaultInclusiveMin := true
